@@ -554,12 +554,24 @@ class Balancer:
             return truism
         shift_amount = shift_amount_values[0]
 
+        if shift_amount == 0:
+            return Bool(truism.op, (expr, rhs))
+        if shift_amount >= len(expr) or truism.op in {"SGE", "SGT", "SLE", "SLT"}:
+            # everything is shifted out / the sign bit of the shifted value is not the sign bit of expr
+            return truism
+        if truism.op not in {"UGE", "UGT", "__ne__"}:
+            # The bits shifted out of expr must be known to be zero. Otherwise only expr << n >= c (expr * 2**n is at least
+            # expr << n) and expr << n != c (expr == c >> n would imply expr << n == c) say something about expr itself.
+            shifted_out = expr[len(expr) - 1 : len(expr) - shift_amount]
+            if not claripy.backends.vsa.is_true(shifted_out == 0):
+                return truism
+
         rhs_lower = claripy.Extract(shift_amount - 1, 0, rhs)
         rhs_lower_values = claripy.backends.vsa.eval(rhs_lower, 2)
         if len(rhs_lower_values) == 1 and rhs_lower_values[0] == 0:
-            # we can remove the __lshift__
+            # we can remove the __lshift__ (the comparison is unsigned: shift the other side logically)
 
-            return Bool(truism.op, (expr, rhs >> shift_amount))
+            return Bool(truism.op, (expr, claripy.LShR(rhs, shift_amount)))
 
         return truism
 
